@@ -163,8 +163,11 @@ CHECKS["C05"] = dict(
 CHECKS["C04"] = dict(
     technique="Coq proof for an arbitrary calculator function and opaque configurations (Model/Calc.v, Proofs/CalcProofs.v, Props/C04.v: "
               "invariant by induction over accept/reject/fail histories) + functional correspondence of Calc.run (vm_compute) on the "
-              "outcome sequence of real runs with counting calculators, and an independent calculator on atoms.copy() after every trial",
-    text="Theorems for every calculator function E, every history: between trials cached result = reference energy = E(current "
+              "outcome sequence of real runs with counting calculators, and an independent calculator on atoms.copy() after every trial; "
+              "Model/CalcKeys.v, Proofs/CalcKeysProofs.v: the results as a dictionary keyed by property, invariant over every sequence of "
+              "propose/request/save/revert, functional correspondence after every elementary operation on a real Canonical object",
+    text="Every value a compute-only-what-is-asked calculator holds after a trial, under any key, belongs to the current configuration. "
+         "Theorems for every calculator function E, every history: between trials cached result = reference energy = E(current "
          "configuration), calc.atoms = remembered geometry = current; asking for the energy then costs no evaluation (logging and "
          "rejection are free); a trial costs exactly one evaluation iff it reached its criteria with a changed configuration, none "
          "if it failed; the initial reference energy is right whatever (truthful) state the calculator was in. Open finding: "
